@@ -14,6 +14,7 @@ static const char* FIXED_RULES =
     "rule ep_defined { condition: defined entrypoint }\n"
     "rule ep_low { condition: entrypoint < 0x400 }\n"
     "rule fsize_small { condition: filesize < 100 }\n"
+    "rule slow { condition: filesize == 777 and pe.is_pe and for all i in (0..2000000000) : (for all j in (0..2000000000) : (i + j >= 0)) }\n"
     "rule fsize_even { condition: filesize % 2 == 0 }\n"
     "rule is_pe { condition: pe.is_pe }\n"
     "rule pe_secs { condition: pe.number_of_sections > 2 }\n"
@@ -113,7 +114,12 @@ std::string run_case(Src& s, CaseInfo& ci)
   std::vector<bytes> bufs = {g_samples.pe, g_samples.elf, g_samples.macho, "", "xxabcxx", "abc abc abbbc ELF"};
   bufs.push_back(gen_set_buffer(s, gs));
   bufs.push_back(g_samples.pe2.substr(0, 20000));
-  std::vector<std::string> kinds = {"PE", "ELF", "MACHO", "EMPTY", "TEXT", "TEXT", "TEXT", "PE", "FIBERS", "HOT"};
+  // SLOW: the first 777 bytes of a PE; rule `slow` then loops until the 1 s timeout that every scan of this
+  // buffer carries stops it - a scan cut short by ERROR_SCAN_TIMEOUT while conditions are being evaluated,
+  // with modules loaded
+  bufs.push_back(g_samples.pe.substr(0, 777));
+  std::vector<std::string> kinds = {"PE", "ELF", "MACHO", "EMPTY", "TEXT", "TEXT", "TEXT", "PE", "SLOW", "FIBERS", "HOT"};
+  const int SLOW = (int) bufs.size() - 1;
   bufs.push_back("ab" + bytes(3000, 'c'));  // makes rule `fibers` fail with ERROR_TOO_MANY_RE_FIBERS
   bufs.push_back(bytes(1000100, '\x1f'));      // makes $hot exceed YR_MAX_STRING_MATCHES
   const size_t NORMAL = bufs.size() - 2;
@@ -130,6 +136,8 @@ std::string run_case(Src& s, CaseInfo& ci)
       {
       case 0:
         op.buf = (int) s.range(0, NORMAL - 1);
+        if (op.buf == SLOW && !s.coin(40))
+          op.buf = 0;  // scans of SLOW take a second each: keep them at a few percent
         break;
       case 1:
         op.buf = (int) NORMAL;  // FIBERS
@@ -229,6 +237,9 @@ std::string run_case(Src& s, CaseInfo& ci)
     }
     else
     {
+      const int timeout_was = timeout;
+      if (op.buf == SLOW)
+        timeout = 1;
       std::string got = do_scan(R.r, sc, bufs[op.buf], op, flags, timeout);
       // the same scan on a fresh scanner with the same settings
       ys_scanner* fresh = ys_scanner_new(R.r, &err);
@@ -236,6 +247,7 @@ std::string run_case(Src& s, CaseInfo& ci)
         ys_scanner_define(fresh, YS_EXT_INT, "xi", xi, 0, nullptr);
       std::string want = do_scan(R.r, fresh, bufs[op.buf], op, flags, timeout);
       ys_scanner_free(fresh);
+      timeout = timeout_was;
       ci.sub_evals++;
       if (nscans >= 2 && kinds_seen.size() >= 2 && abnormal >= 1)
         nontrivial = true;
@@ -245,7 +257,7 @@ std::string run_case(Src& s, CaseInfo& ci)
                        i, kinds[op.buf].c_str(), bufs[op.buf].size(), got.substr(0, 1500).c_str(), want.substr(0, 1500).c_str());
       nscans++;
       kinds_seen.insert(kinds[op.buf]);
-      if (op.script_action || op.notready || op.buf >= (int) NORMAL)
+      if (op.script_action || op.notready || op.buf >= (int) NORMAL || op.buf == SLOW)
         abnormal++;
     }
   }
